@@ -344,6 +344,69 @@ fn op_builders(c: &Case, out: &mut Out) {
     out.put("subs", s.join(";"));
 }
 
+fn canon_value(v: &scale_value::Value<()>, out: &mut String) {
+    use scale_value::{Composite, Primitive, ValueDef};
+    match &v.value {
+        ValueDef::Composite(Composite::Named(items)) => {
+            out.push_str("N{");
+            for (n, x) in items { out.push_str(n); out.push(':'); canon_value(x, out); out.push(','); }
+            out.push('}');
+        }
+        ValueDef::Composite(Composite::Unnamed(items)) => {
+            out.push_str("U(");
+            for x in items { canon_value(x, out); out.push(','); }
+            out.push(')');
+        }
+        ValueDef::Variant(var) => {
+            out.push_str("V["); out.push_str(&var.name); out.push(' ');
+            canon_value(&scale_value::Value { value: ValueDef::Composite(var.values.clone()), context: () }, out);
+            out.push(']');
+        }
+        ValueDef::BitSequence(b) => { out.push_str("B<"); for bit in b.iter() { out.push(if bit { '1' } else { '0' }); } out.push('>'); }
+        ValueDef::Primitive(p) => match p {
+            Primitive::Bool(b) => out.push_str(&format!("bool:{b}")),
+            Primitive::Char(c) => out.push_str(&format!("char:{c}")),
+            Primitive::String(s) => out.push_str(&format!("str:{s}")),
+            Primitive::U128(x) => out.push_str(&format!("u:{x}")),
+            Primitive::I128(x) => out.push_str(&format!("i:{x}")),
+            Primitive::U256(x) => out.push_str(&format!("u256:{:?}", x)),
+            Primitive::I256(x) => out.push_str(&format!("i256:{:?}", x)),
+        },
+    }
+}
+/// example value for (id, seed..seed+n): generation, determinism, encode_as_type, decode_as_type round trip
+fn op_scale_example(c: &Case, out: &mut Out) {
+    let reg = registry(c);
+    let id: u32 = get(c, "id").unwrap().parse().unwrap();
+    let seed0: u64 = get(c, "seed").unwrap_or("0").parse().unwrap();
+    let n: u64 = get(c, "nseeds").unwrap_or("1").parse().unwrap();
+    for seed in seed0..seed0 + n {
+        let a = scale_typegen_description::scale_value_from_seed(id, &reg, seed);
+        let b = scale_typegen_description::scale_value_from_seed(id, &reg, seed);
+        match (a, b) {
+            (Ok(v), Ok(w)) => {
+                let mut s = String::new(); canon_value(&v, &mut s);
+                if n == 1 { out.put("value", s.clone()); }
+                if v != w { out.put("fail", format!("seed {seed}: two runs with the same seed differ")); return; }
+                let mut bytes = vec![];
+                if let Err(e) = scale_value::scale::encode_as_type(&v, id, &reg, &mut bytes) { out.put("fail", format!("seed {seed}: encode_as_type fails: {e} for value {s}")); return; }
+                let cursor = &mut &bytes[..];
+                match scale_value::scale::decode_as_type(cursor, id, &reg) {
+                    Err(e) => { out.put("fail", format!("seed {seed}: decode_as_type fails: {e}")); return; }
+                    Ok(d) => {
+                        if !cursor.is_empty() { out.put("fail", format!("seed {seed}: {} bytes left after decoding", cursor.len())); return; }
+                        let d = d.remove_context();
+                        if d != v { let mut s2 = String::new(); canon_value(&d, &mut s2); out.put("fail", format!("seed {seed}: decoded value {s2} differs from {s}")); return; }
+                    }
+                }
+            }
+            (Err(e), Err(_)) => { if n == 1 { out.put("value", "ERR"); out.put("err", e.to_string().chars().take(80).collect::<String>()); } else { out.put("errseed", seed.to_string()); } }
+            _ => { out.put("fail", format!("seed {seed}: one run returns a value, the other an error")); return; }
+        }
+    }
+    out.put("result", "Ok");
+}
+
 fn run_case(c: &Case, out: &mut Out) {
     match get(c, "op").unwrap_or("") {
         "fmt" => op_fmt(c, out),
@@ -361,6 +424,7 @@ fn run_case(c: &Case, out: &mut Out) {
         "standalone" => op_standalone(c, out),
         "validate" => op_validate(c, out),
         "builders" => op_builders(c, out),
+        "scale_example" => op_scale_example(c, out),
         "corpus" => {
             use parity_scale_codec::Encode;
             for (name, reg) in corpus::all() {
